@@ -21,6 +21,7 @@
 -/
 import BacVerif.Drv.Common
 import BacVerif.Model.Tsm
+import BacVerif.Model.Tsm.Cache
 namespace BacVerif.Drv
 open Lean BacVerif BacVerif.Tsm
 
@@ -185,6 +186,42 @@ def handleTsm (st : DrvState) (j : Json) : R (DrvState × Json) := do
                       ("next", Json.num s'.nextId), ("now", Json.num s'.now),
                       ("br", Json.str (brOf st.sap s' e outs))]
     pure ({ st with sap := s' }, reply)
+  | "cache" =>
+    -- DeviceInfoCache alone: {"op":"cache","ops":[["iam",i,a,maxApdu,seg]|["acq","a"|"i",key]|["rel",handle]…],
+    --   "addrs":[…],"insts":[…]} → after EVERY op the view [id,addr,maxApdu,seg,maxSegs,maxNpdu,refs]|null of
+    --   every queried key; handle n = the record the n-th successful acquire returned
+    let ops ← fldArr j "ops"
+    let addrs ← (← fldArr j "addrs").toList.mapM (·.getNat?)
+    let insts ← (← fldArr j "insts").toList.mapM (·.getNat?)
+    let segCode : SegSup → Nat := fun g => match g with | .no => 0 | .tx => 1 | .rx => 2 | .both => 3
+    let view (c : Cache.Cache) : Json :=
+      let one (k : Cache.CKey) : Json := match c.lookup k with
+        | none => Json.null
+        | some r => Json.arr #[Json.num r.id, Json.num r.addr, jNatOpt r.info.maxApdu, Json.num (segCode r.info.seg),
+                               jNatOpt r.info.maxSegs, jNatOpt r.info.maxNpdu, Json.num r.refs]
+      Json.arr ((addrs.map fun a => one (.addr a)) ++ (insts.map fun i => one (.inst i))).toArray
+    let mut c : Cache.Cache := {}
+    let mut handles : List Nat := []
+    let mut views : Array Json := #[]
+    for o in ops do
+      let a ← o.getArr?
+      match ← a[0]!.getStr? with
+      | "iam" =>
+        c := Cache.iam c (← a[1]!.getNat?) (← a[2]!.getNat?) (← a[3]!.getNat?) (← segOfNat (← a[4]!.getNat?))
+      | "acq" =>
+        let kind ← a[1]!.getStr?
+        let kv ← a[2]!.getNat?
+        let k : Cache.CKey := if kind == "a" then .addr kv else .inst kv
+        let (c', h) := Cache.acquire c k
+        c := c'
+        match h with | some x => handles := handles ++ [x] | none => pure ()
+      | "rel" =>
+        match handles[(← a[1]!.getNat?)]? with
+        | some x => match Cache.release c x with | some c' => c := c' | none => pure ()
+        | none => pure ()
+      | x => throw s!"unknown cache op {x}"
+      views := views.push (view c)
+    pure (st, jOk [("views", Json.arr views)])
   | "nextid" =>
     let (r, next) := getNextInvokeId st.sap (← fldNat j "peer")
     pure (st, jOk [("id", jNatOpt r), ("next", Json.num next)])
